@@ -27,7 +27,7 @@ PROPS = {
         "assumptions": ["AsyncRead sources obey the trait contract (Ok(0) only at end of stream)"],
     },
     "C17": {
-        "bins": ["codec"],
+        "bins": ["codec", "e2e"],
         "rule": "all four low-bit classes x boundary magnitudes (every power of two up to 2^62) and random 62-bit "
                 "ids for classification and session-id acceptance; quarter ids at and beyond 2^60-1; "
                 "non-trivial = distinct line with id >= 4",
@@ -79,7 +79,7 @@ PROPS = {
         "assumptions": ["a leading '+' or leading zeros accepted by u16::from_str are not violations (value still in range)"],
     },
     "C04": {
-        "bins": ["codec"],
+        "bins": ["codec", "e2e"],
         "rule": "close capsules over code boundaries x reason lengths 0..1025 (ASCII, multi-byte, invalid UTF-8), "
                 "too-short / over-long / truncated / unknown-type capsules, trailing bytes; oracle = independent "
                 "RFC 9297 / WebTransport close-capsule parser; non-trivial = distinct payload",
@@ -110,7 +110,7 @@ PROPS = {
                         "what a running endpoint puts on the wire is recorded by a raw peer in the e2e correspondence when present"],
     },
     "C10": {
-        "bins": ["codec"],
+        "bins": ["codec", "e2e"],
         "rule": "real verifier with an injected clock on certificates generated per case: validity 0 s, 1 s, 1 d, "
                 "14 d - 1 s, 14 d, 14 d + 1 s, 15 d, 400 d; now at both ends +-1 s and mid-window; P-256 / P-384 / "
                 "Ed25519; hash sets empty / match / other / many; undecodable DER; non-trivial = distinct line",
@@ -130,7 +130,7 @@ PROPS = {
                         "digests by correspondence; the dotted-hex round trip is a theorem for every digest"],
     },
     "C20": {
-        "bins": ["codec"],
+        "bins": ["codec", "e2e"],
         "rule": "idle timeouts over the representable range and beyond (0, 1 ms ... 2^62-1, 2^62, 2^62+1, u64::MAX s) on "
                 "both builders; bind / ALPN tables regenerated from the source; non-trivial = distinct line",
         "extracted_keys": ["BIND_IP", "BIND_DUAL", "BIND_SOCKOPT", "WEBTRANSPORT_ALPN"],
@@ -158,6 +158,57 @@ PROPS = {
         "extracted_keys": ["REQUEST_HEADERS", "STATUS_SUCCESS_LO", "STATUS_SUCCESS_HI", "QPACK_STATIC_TABLE_ROWS"],
         "trusted": CODEC_TRUST + ["url crate (parsed parts are inputs)", "httlib-huffman (modelled concretely)"],
         "assumptions": ["the QPACK field-section round trip is tied by correspondence and Spec decoding of emitted bytes, not yet a theorem"],
+    },
+    "C05": {
+        "bins": ["e2e"],
+        "rule": "e2e `ctrl.cut`: raw peer against the real endpoint; targets {SETTINGS, CONNECT request, response, GREASE frame "
+                "on the control stream, GREASE frame on the session stream, close capsule} x cut positions (quick: sampled; "
+                "thorough: every position) x events between the pieces {none, datagram, uni stream, bidi stream, frame on the "
+                "other critical stream} x both sides x both runtimes; the expected outcome is the worker model on the whole "
+                "bytes; non-trivial = distinct line with cut > 0",
+        "extracted_keys": ["FRAME_MAX_PARSE_PAYLOAD", "ERROR_CODES", "CAPSULE_CLOSE_WEBTRANSPORT_SESSION"],
+        "trusted": ["tokio::select! drops the futures of the branches that did not complete (language semantics)",
+                    "which branch completes first on a given run is the runtime's choice: the model says where a tear CAN occur"],
+        "assumptions": ["pieces are separated by 80 ms on loopback, so each piece is one delivery"],
+    },
+    "C07": {
+        "bins": ["e2e"],
+        "rule": "e2e `stall`: raw client against the real server; k in {1..8} streams of either kind stalled at {no byte, "
+                "first preamble byte, complete preamble then silence, 64 KiB unread} x {stalled first, healthy first, "
+                "interleaved} x both runtimes, then 3+3 healthy streams, a datagram and a clean close; the model side is "
+                "Handoff.drain on the same arrival order with the capacities and the slot-reservation structure the "
+                "translator read from accept_uni/accept_bi; non-trivial = distinct line",
+        "extracted_keys": ["CAP_READY_UNI_WT", "CAP_READY_BI_WT", "CAP_READY_UNI_H3", "CAP_READY_BI_H3",
+                           "HANDOFF_RESERVE_FIRST_UNI", "HANDOFF_RESERVE_FIRST_BI"],
+        "trusted": ["tokio mpsc (bounded FIFO, Sender::send waits for capacity) and quinn accept_uni/accept_bi (streams "
+                    "in id order) are the specification record of the pipeline's parts"],
+        "assumptions": ["fair scheduling of spawned tasks (tokio); the application keeps accepting",
+                        "QUIC flow control: a stalled stream holds none of the connection-level credit the healthy ones need "
+                        "(64 KiB unread is below quinn's default windows)"],
+    },
+    "C08": {
+        "bins": ["e2e"],
+        "rule": "e2e `accept.pace`: real client opens n_uni x n_bi in {0,1,50,100,250,(400)} streams with distinct payloads; "
+                "the real server accepts with 1..8 tasks per kind, delays 0..5 ms, and (cancel=1) accept futures raced "
+                "against random sleeps, dropped and re-issued; counts distinct / duplicate / unknown payloads; "
+                "non-trivial = distinct line with at least one stream",
+        "extracted_keys": ["CAP_READY_UNI_WT", "CAP_READY_BI_WT", "HANDOFF_RESERVE_FIRST_UNI", "HANDOFF_RESERVE_FIRST_BI"],
+        "trusted": ["tokio mpsc Receiver::recv and quinn accept_* are cancel-safe (documented): an accept future dropped "
+                    "before completion has taken nothing"],
+        "assumptions": ["the peer does not exceed quinn's concurrent-stream limits (it cannot: QUIC enforces them)"],
+    },
+    "C09": {
+        "bins": ["e2e"],
+        "rule": "e2e `term`: 13 ways a connection ends (peer capsule / FIN / reset / truncated frame / malformed capsules / "
+                "critical-stream closure / QUIC close / local close / all handles dropped) x {idle, calls pending, streams "
+                "held} x both sides x both runtimes x codes {0,1,2^32-1,2^62-1,random} x reasons {empty, ascii, 1024 bytes, "
+                "multi-byte}; `drop.handles` with 0..3 clones; every pending and later call must complete with an allowed "
+                "error; non-trivial = distinct line",
+        "extracted_keys": ["ERROR_CODES", "CAPSULE_CLOSE_WEBTRANSPORT_SESSION", "CAPSULE_MAX_REASON_LEN"],
+        "trusted": ["quinn: close_reason(), closing the connection when the last handle is dropped, CONNECTION_CLOSE delivery",
+                    "tokio watch/mpsc wake-ups"],
+        "assumptions": ["promptness is measured with a 3 s bound per call in the harness; the theorem bounds the number of "
+                        "worker steps (four), not wall-clock time"],
     },
     "C06": {
         "bins": ["e2e"],
@@ -215,6 +266,23 @@ LEVEL_TEXT = {
     "C02": "Lean 4 theorems on the header maps: the built request is admitted unchanged with exact authority and "
            "path-with-query, extras preserved, reserved names never overridden, verdict a function of the status alone "
            "(all 500 codes), same session id both sides; wire form tied by correspondence (partial until the QPACK round trip is a theorem)",
+    "C05": "Lean 4 theorems over the select-loop model: inside one iteration a reader equals the one-shot parse for every "
+           "chunking (C15), so segmentation alone is harmless (segmentation_alone_is_harmless), and for every piece list "
+           "in which no reader is dropped while holding part of a frame the outcome equals that of the whole bytes "
+           "(C05_partial); the full statement is FALSE of the code (C05_full_false, concrete witness) - known finding D5; "
+           "tied by the e2e cut x event matrix where the model predicts the whole outcome and exactly which cuts can tear",
+    "C07": "Lean 4 theorems over the hand-off pipeline model, for every schedule and every set of streams stalled inside "
+           "their preamble: each internal step decreases a measure (fair completions terminate) and a state where nothing "
+           "can happen has no healthy stream undelivered (C07_full), given the structural fact extracted from the source on "
+           "every run that no queue slot is taken before the preamble is read; tied by the e2e stall matrix, on which the "
+           "same executable model predicts every count",
+    "C08": "Lean 4 invariant by induction over ALL action sequences (opens, worker accepts, tasks finishing/failing, "
+           "application accepts, cancelled accept calls): every opened stream is in exactly one place, delivered at most "
+           "once, none invented, queue never above capacity; tied by the e2e acceptance-pace matrix with cancellation",
+    "C09": "Lean 4 theorems: the shared result is set once and read consistently for every operation sequence; in every "
+           "reachable state of the worker's shutdown a closed queue implies a stored result (no missing result, no panic "
+           "arm, four steps to completion); for every cause both kinds of call report the actual cause or a local close "
+           "where the library itself shut the transport down; tied by the e2e termination matrix",
     "C06": "Lean 4 theorems: every mapping arm of the stream API carries every 62-bit code unchanged, finish succeeds iff "
            "acknowledged, no two outcomes conflated; quinn's life-cycle is the trusted record; tied by e2e signal matrix",
 }
@@ -241,6 +309,15 @@ LEVEL_NOTE = {
     "C20": "OS / quinn apply the settings (partial); live half via e2e.",
     "C01": "Trusted as C14 plus quinn's stream transport (partial: loss/reordering inside quinn not exhibited).",
     "C02": "Trusted as C14 plus url, httlib-huffman; partial as stated.",
+    "C05": "Trusted as C14. Partial: the full property does not hold of the code (open known finding D5, not repaired); "
+           "what is proved is the tear-free fragment plus the negation witness. Which branch the runtime polls first is not "
+           "modelled, only whether a tear is possible.",
+    "C07": "Trusted as C14 plus tokio's mpsc/scheduler and quinn's accept order (modelled as the pipeline's steps). "
+           "Partial: the model has no packets, so loss/delay inside quinn and flow-control starvation are not exhibited; "
+           "the e2e runs cover them only as far as loopback does.",
+    "C08": "Trusted as C07. Cancel-safety of recv()/accept_*() is an assumption named in the evidence.",
+    "C09": "Trusted as C14 plus quinn close semantics. Partial: promptness is a step bound in the model and a 3 s bound in "
+           "the harness.",
     "C06": "quinn's stream life-cycle trusted (partial).",
 }
 
